@@ -75,6 +75,14 @@ def xyz_cases(seed, tier):
     # (3) many points (more than one data packet)
     n = 9000 if tier == "quick" else 40000
     cases.append(("many", [{"cols": 6, "xyz": [f32bits(i * 0.125), f32bits(-i * 0.5), f32bits(1e-3 * i)], "rgb": [i % 256, (i // 256) % 256, (i * 3) % 256], "extra": []} for i in range(n)]))
+    if tier == "thorough":
+        # every finite 32-bit pattern is a legal coordinate: random patterns over all exponents
+        def rb():
+            while True:
+                b = r.getrandbits(32)
+                if (b >> 23) & 0xFF != 0xFF:
+                    return b
+        cases.append(("random_bits", [{"cols": 6, "xyz": [rb(), rb(), rb()], "rgb": [r.randrange(256) for _ in range(3)], "extra": []} for _ in range(20000)]))
     return cases
 
 
